@@ -3,7 +3,9 @@
    Events (driver harness/cmd/c09):
      pool{proto,mc,mr}        fresh pool + fresh cluster resources (TraceReset)
      op{op,..., res,c,cvar, idle,total,req, open,live, gconn,greq [,par]}
-          one operation of the history and what was observed when it had completed:
+          one operation of the history and what was observed when it had completed
+          (dbegin: observed while the destroying goroutine is held between the release of the request
+          resource and the pool's idle-list update; dend: after it was let go):
           res/c     result of NewStream and the connection the request really travelled on (upstream's view)
           cvar      connection the pool named for that stream
           idle,total,req   the books: idle list + live count (verif accessors), Requests resource
@@ -32,7 +34,7 @@ Mis(kind) == PrintT(<<"MISMATCH", l, kind>>)
 
 EvOp == CASE Ev.op = "new" -> [op |-> "new", up |-> Ev.up]
           [] Ev.op = "resp" -> [op |-> "resp", c |-> Ev.c, close |-> Ev.close]
-          [] Ev.op \in {"reset", "garbage", "rclose"} -> [op |-> Ev.op, c |-> Ev.c]
+          [] Ev.op \in {"reset", "garbage", "rclose", "dbegin", "dend"} -> [op |-> Ev.op, c |-> Ev.c]
           [] OTHER -> [op |-> Ev.op]
 NewUp == [op |-> "new", up |-> TRUE]
 IsPar == Has(Ev, "par")
@@ -54,7 +56,7 @@ MResult(r) == /\ r.res = Ev.res
               /\ (Ev.op = "new" /\ Ev.res = "ok") => r.c = Ev.c
               /\ IsPar => (r.bres = Ev.par.res /\ (Ev.par.res = "ok" => r.bc = Ev.par.c))
 MOpen(r)   == S(Ev.open) = OpenSet(r.p)
-MLive(r)   == S(Ev.live) = In(r.p, "leased")
+MLive(r)   == S(Ev.live) = In(r.p, "leased") \cup r.p.ending     \* a stream is live until its destruction has run through
 MIdle(r)   == S(Ev.idle) = SeqSet(r.p.idle) /\ Len(Ev.idle) = Len(r.p.idle)
 MTotal(r)  == Ev.total = r.p.total
 MReq(r)    == Ev.req = ReqBook(r.p)
